@@ -345,7 +345,7 @@ def evaluate(inp: dict) -> dict:
     return {"props": props, "tags": tags, "impl": impl, "model": ans["model"], "proc": pj}
 
 
-EX_PROCS = 40          # catalogue size of the small-scope exhaustive family (thorough tier)
+EX_PROCS = 80          # catalogue size of the small-scope exhaustive family (thorough tier)
 EX_REGS = ["R0", "R1"]
 
 
@@ -360,7 +360,7 @@ def ex_forms(incaps):
 
 
 def cases(tier: str) -> list:
-    n = 12000 if tier == "quick" else 180000
+    n = 12000 if tier == "quick" else 400000
     cs = list(range(n))
     if tier == "thorough":
         # small scope, exhaustively: every program of up to 3 instructions over 2 registers on a catalogue of small
